@@ -913,6 +913,18 @@ impl<'tera> VirtualMachine<'tera> {
                         &root
                     };
 
+                    // Same as `WriteTop`: a value can be present but undefined (eg `{"a": missing}`)
+                    if val.is_undefined() {
+                        let span = chunk
+                            .get_span_at(current_ip, num_attrs)
+                            .expect("to have a span for error");
+                        return Err(self.rendering_error(
+                            "Tried to render a variable that is not defined".to_string(),
+                            chunk,
+                            span,
+                        ));
+                    }
+
                     if !self.autoescape_enabled() || val.is_safe() {
                         #[cfg(tera_verif)]
                         crate::verif::emit(|| {
